@@ -14,13 +14,22 @@ for p in sorted(pkg.rglob("*.py")):
     name = ".".join(parts)
     tree = ast.parse(p.read_text())
     q = {}
+
+    def nested(fn, qual):
+        for x in ast.walk(fn):
+            if isinstance(x, ast.FunctionDef) and x is not fn:
+                # direct or indirect nesting: qualify by the outermost function only (names are unique enough inside one function)
+                q[f"{qual}.{x.name}"] = body_hash(x)
+
     for st in tree.body:
         if isinstance(st, ast.FunctionDef):
             q[st.name] = body_hash(st)
+            nested(st, st.name)
         elif isinstance(st, ast.ClassDef):
             for m in st.body:
                 if isinstance(m, ast.FunctionDef):
                     q[f"{st.name}.{m.name}"] = body_hash(m)
+                    nested(m, f"{st.name}.{m.name}")
     out[name] = q
 Path("/verif/wgverif/pinned_api.json").write_text(json.dumps(out, indent=0, sort_keys=True))
 print(sum(len(v) for v in out.values()), "functions in", len(out), "modules")
